@@ -115,7 +115,7 @@ let parse_op name : Model.op option =
   | "rRRG" -> let a = nn () in let b = nn () in r (Model.RRemRowRange (a, b))
   | "rRCG" -> let a = nn () in let b = nn () in r (Model.RRemColRange (a, b))
   | "rCL" -> r Model.RClear
-  | "qAR" | "gAR" -> q (Model.QAddRow (row nq))
+  | "qAR" | "gAR" -> q (Model.QAddRow (name = "gAR", row nq))
   | "qARS" | "gARS" -> let c = ni () in q (Model.QAddRows (name = "gARS", lst (fun () -> row nq) c))
   | "qAC" | "gAC" -> q (Model.QAddCol (name = "gAC", col nq))
   | "qACS" | "gACS" -> let c = ni () in q (Model.QAddCols (name = "gACS", lst (fun () -> col nq) c))
